@@ -22,6 +22,27 @@ class NS(Model):
             setattr(self, k, v)
 
 
+_PURE_DECORATORS = {"functools", "lru_cache", "cache", "wraps", "contextmanager", "contextlib", "singledispatch", "overload", "typing", "staticmethod", "classmethod", "property",
+                    "dataclass", "dataclasses", "total_ordering", "final", "runtime_checkable", "unique", "enum", "abstractmethod", "abc", "cached_property"}
+
+
+def _registers_at_import(tree):
+    """Does running this module's body do something beyond binding its own names?  (a class / function decorated by something
+    other than the usual pure decorators, a call statement at module level)"""
+    def root(d):
+        d = d.func if isinstance(d, ast.Call) else d
+        while isinstance(d, ast.Attribute):
+            d = d.value
+        return d.id if isinstance(d, ast.Name) else None
+
+    for st in tree.body:
+        if isinstance(st, (ast.ClassDef, ast.FunctionDef)) and any(root(d) not in _PURE_DECORATORS for d in st.decorator_list):
+            return True
+        if isinstance(st, ast.Expr) and isinstance(st.value, ast.Call):
+            return True
+    return False
+
+
 class LazyNS(Model):
     """Namespace whose attributes are resolved on first use."""
 
@@ -1136,12 +1157,25 @@ class Package:
         env["__resolve_import__"] = lambda module, name, level, rel=rel: self.resolve_import(rel, module, name, level)
         env["__resolve_module__"] = lambda dotted, rel=rel: self.resolve_module(dotted)
 
+        def run_if_registering(target):
+            # CPython executes a module when it is imported; the evaluator binds a lazy namespace.  A module whose body registers
+            # things elsewhere when it runs (decorated classes / functions filling a table of another module, call statements at
+            # module level) is therefore evaluated at the import, in source order, like CPython does
+            if target is not None and target != rel and target in self.repo.tree and target not in self.envs and _registers_at_import(self.repo.tree[target]):
+                self.env(target)
+
         def walk(nodes):
             for st in nodes:
                 if isinstance(st, ast.ImportFrom):
-                    if self.repo.module_rel(st.module, st.level, rel) is None:
+                    target = self.repo.module_rel(st.module, st.level, rel)
+                    if target is None:
                         continue
                     for al in st.names:
+                        if target.endswith("__init__.py"):
+                            d = target[: -len("__init__.py")]
+                            for sub in (d + al.name + ".py", d + al.name + "/__init__.py"):
+                                if sub != "__init__.py":
+                                    run_if_registering(sub)
                         nm = al.asname or al.name
                         if nm in env:
                             continue
@@ -1150,6 +1184,9 @@ class Package:
                             env[nm] = v
                 elif isinstance(st, ast.Import):
                     for al in st.names:
+                        f_ = self.repo.module_rel(al.name)
+                        if f_ not in (None, "__init__.py"):
+                            run_if_registering(f_)
                         if al.asname and al.asname not in env:
                             v = self.resolve_module(al.name)
                             if v is not _MISSING:
